@@ -128,6 +128,12 @@ type Model struct {
 	// (other relations, other types) are THE SAME message - what code that
 	// assembles models from a library of rewrite constants produces.
 	Intern bool `json:"intern,omitempty"`
+	// Present: optional parts that the plan leaves out are present-but-empty in
+	// the protobuf rendering instead of absent (metadata without entries, an
+	// empty relations / conditions map, an empty restriction list, a source info
+	// without file, condition metadata without module): absent and empty mean
+	// the same model.
+	Present bool `json:"present,omitempty"`
 }
 
 // internTable is non-nil while a model with Intern is rendered.
@@ -168,7 +174,7 @@ func (m *Model) aliased() bool {
 }
 
 func (m *Model) clone() *Model {
-	c := &Model{Schema: m.Schema, ID: m.ID, Intern: m.Intern}
+	c := &Model{Schema: m.Schema, ID: m.ID, Intern: m.Intern, Present: m.Present}
 	for _, t := range m.Types {
 		ct := &Type{Name: t.Name, Module: t.Module, File: t.File}
 		for _, r := range t.Relations {
@@ -320,7 +326,32 @@ func (m *Model) toProto() *openfgav1.AuthorizationModel {
 				td.Metadata.SourceInfo = &openfgav1.SourceInfo{File: t.File}
 			}
 		}
+		if m.Present {
+			if td.Relations == nil {
+				td.Relations = map[string]*openfgav1.Userset{}
+			}
+			if td.Metadata == nil {
+				td.Metadata = &openfgav1.Metadata{}
+			}
+			if td.Metadata.Relations == nil {
+				td.Metadata.Relations = map[string]*openfgav1.RelationMetadata{}
+			}
+			if td.Metadata.SourceInfo == nil {
+				td.Metadata.SourceInfo = &openfgav1.SourceInfo{}
+			}
+			for _, rm := range td.Metadata.Relations {
+				if rm.DirectlyRelatedUserTypes == nil {
+					rm.DirectlyRelatedUserTypes = []*openfgav1.RelationReference{}
+				}
+				if rm.SourceInfo == nil {
+					rm.SourceInfo = &openfgav1.SourceInfo{}
+				}
+			}
+		}
 		pm.TypeDefinitions = append(pm.TypeDefinitions, td)
+	}
+	if m.Present && len(m.Conds) == 0 {
+		pm.Conditions = map[string]*openfgav1.Condition{}
 	}
 	if len(m.Conds) > 0 {
 		pm.Conditions = map[string]*openfgav1.Condition{}
